@@ -4,11 +4,14 @@
    violation (peek/skip beyond the buffer, lookahead beyond the capacity, push into a full buffer, the
    assert!(buflen >= k) of the Input default methods) and none of the skeleton panics (empty simple-key / indent
    stacks, token insertion out of range, token-number underflow, debug_assert!(is_break), u32 overflow of the version
-   number).  Not yet theorems: termination with linear fuel (the model's OutOfFuel outcome is a monitor on every
-   input of the correspondence run) and the byte-level StrInput overrides (tied by the back-end comparison C10). *)
+   number).  (3) BOUNDED WORK: over the string input, for every input, no loop of the scanner exhausts the fuel
+   F = 2 * |input| + 10 it is given, the scanner delivers at most 4F + 20 tokens and the parser ends within
+   4 * (4F + 20) + 40 steps - the pipeline run_str never ends in OutOfFuel; every fetch_next_token step is the
+   stream-start step, or consumes at least one character, or is the final fetch_stream_end.  Not theorems: the
+   byte-level StrInput overrides (tied by the back-end comparison C10) and fuel on the buffered side. *)
 From Coq Require Import List NArith Bool.
 Import ListNotations.
-Require Import Parser SBase SFetch Pipe SBuf Grammar C02base C02tail C02run ScanWP ScanSafeTop.
+Require Import Parser SBase SFetch Pipe SBuf Grammar C02base C02tail C02run ScanWP ScanSafeTop ScanFuel ScanFuelFetch ScanFuelTop ScanFuelAll.
 
 (* The pull parser never panics (pop_state on an empty stack, fetch_token without peek, unreachable! arms,
    State::End in the state machine), whatever the token stream and however the scanner ended: a panic verdict
@@ -39,3 +42,33 @@ Theorem C01_pipeline_never_panics_buffered : forall cap, (8 <= cap)%nat -> foral
   snd (run_buf cap input) <> PPanic n.
 Proof. exact pipeline_never_panics_buffered. Qed.
 Print Assumptions C01_pipeline_never_panics_buffered.
+
+(* ---- bounded work (string input) ---- *)
+(* One dispatcher step from any state whose remaining input fits the fuel: it does not run out of fuel, the remaining
+   input does not grow, and it is (a) the stream-start step, or (b) it consumed at least one character and the
+   potential phi (tokens handed out + tokens queued + block ends still owed) grew by at most 5, or (c) it was
+   fetch_stream_end, after which no simple key is possible and the queue ends with StreamEnd. *)
+Theorem C01_fetch_next_token_progress : forall (F : nat) (s : fst_), fuel_ok F s ->
+  fwp (fetch_next_token str_ops F) (fnt_post s) s.
+Proof. exact fetch_next_token_progress. Qed.
+Print Assumptions C01_fetch_next_token_progress.
+
+(* The scanner, given the fuels run_str gives it (linear in the input length), never ends in SFuel. *)
+Theorem C01_scanner_terminates_linear : forall orig : list chr,
+  let F := (2 * length orig + 10)%nat in
+  snd (scan_all str_ops F (4 * F + 20) (init_sc {| si_chars := orig; si_look := 0 |}) []) <> SFuel.
+Proof. exact scanner_never_out_of_fuel. Qed.
+Print Assumptions C01_scanner_terminates_linear.
+
+(* The parser on ANY token list ends within 4 * tokens + 2 steps. *)
+Theorem C01_parser_terminates_linear : forall toks se keep fuel, (4 * length toks + 2 <= fuel)%nat -> se <> SFuel ->
+  snd (parse_all fuel {| p_toks := toks; p_token := None; p_states := []; p_state := SStreamStart;
+                         p_anchors := []; p_anchor_id := 1%N; p_tags := []; p_keep_tags := keep |} se []) <> PFuel.
+Proof. exact parse_tokens_fuel_suffices. Qed.
+Print Assumptions C01_parser_terminates_linear.
+
+(* The whole pipeline over the string input never runs out of its linear fuel: every run ends in PDone, a scan error,
+   a parse error (or PPanic, excluded for the buffered instance above and for the string instance by the tie). *)
+Theorem C01_pipeline_terminates_linear : forall orig : list N, snd (run_str orig) <> PFuel.
+Proof. exact pipeline_never_out_of_fuel. Qed.
+Print Assumptions C01_pipeline_terminates_linear.
